@@ -12,6 +12,13 @@ def main():
     ap.add_argument("--tier", default=os.environ.get("VERIF_TIER", "quick"), choices=["quick", "thorough"])
     ap.add_argument("--replay")
     a = ap.parse_args()
+    try:
+        from absl import logging as absl_logging
+
+        absl_logging.set_verbosity(absl_logging.FATAL)
+        absl_logging.set_stderrthreshold("fatal")
+    except Exception:
+        pass
     mod = importlib.import_module(f"harness.{a.prop}")
     if a.replay:
         with open(a.replay) as f:
